@@ -11,7 +11,7 @@ use vkit::out::Report;
 use vkit::util::Args;
 
 /// "valided": valid for the host, under a second, tiny Ed25519 root (its DER encoding is shorter than 256 bytes)
-pub const LEAVES: [&str; 6] = ["valid", "wronghost", "expired", "selfsigned", "unknownca", "valided"];
+pub const LEAVES: [&str; 7] = ["valid", "wronghost", "expired", "selfsigned", "unknownca", "valided", "justexpired"];
 pub const ROOTS: [&str; 6] = ["none", "pem", "der", "unrelated", "edpem", "edder"];
 pub const IGNORE: [Option<bool>; 3] = [None, Some(false), Some(true)];
 
@@ -158,9 +158,9 @@ pub fn run(args: &Args, tier: &str, seed: u64, backend: &str) -> Report {
     }
     let mut rep = rep_m.into_inner().unwrap();
     rep.extra.insert("tls_backend_of_this_build".into(), J::Str(backend.to_string()));
-    rep.rule = format!("Complete matrix for the {backend} build: {{blocking, async}} x ignore_tls_errors {{unset, false, true}} x extra root {{none, correct CA as PEM, as DER, unrelated CA, second (tiny Ed25519, DER < 256 bytes) CA as PEM, as DER}} x server certificate {{valid for localhost, wrong host name, expired, self-signed, signed by an unknown CA, valid under the second CA}} = 216 cells per TLS backend (thorough: x {{1.2+1.3, 1.2-only, 1.3-only}} peers), against a loopback rustls peer with freshly generated CAs. Oracle: accept <=> ignore == true or the supplied root (PEM or DER) is the one the valid leaf chains to; in every rejected cell the peer application must have received zero decrypted bytes. The other backend's 120 cells come from the second build (merged by the driver).");
+    rep.rule = format!("Complete matrix for the {backend} build: {{blocking, async}} x ignore_tls_errors {{unset, false, true}} x extra root {{none, correct CA as PEM, as DER, unrelated CA, second (tiny Ed25519, DER < 256 bytes) CA as PEM, as DER}} x server certificate {{valid for localhost, wrong host name, expired, self-signed, signed by an unknown CA, valid under the second CA, expired less than a minute before the run}} = 252 cells per TLS backend (thorough: x {{1.2+1.3, 1.2-only, 1.3-only}} peers), against a loopback rustls peer with freshly generated CAs. Oracle: accept <=> ignore == true or the supplied root (PEM or DER) is the one the valid leaf chains to; in every rejected cell the peer application must have received zero decrypted bytes. The other backend's 120 cells come from the second build (merged by the driver).");
     if only.is_none() {
-        rep.require(rep.evaluations as usize >= 216 * version_sets.len(), "all cells of the matrix executed");
+        rep.require(rep.evaluations as usize >= 252 * version_sets.len(), "all cells of the matrix executed");
     }
     rep.assumptions.push("trust decisions are those of OpenSSL / rustls as shipped in this image; system roots do not vouch for the freshly generated CAs".into());
     rep
